@@ -194,6 +194,9 @@ func (c *Ctx) rootOf(v ssa.Value, d int) []rootInfo {
 func isSharedStruct(t types.Type) string {
 	s := Short(t.String())
 	s = strings.TrimPrefix(s, "*")
+	if perCallTypes[s] {
+		return ""
+	}
 	if componentTypes[s] {
 		return s
 	}
@@ -212,6 +215,10 @@ func isSharedStruct(t types.Type) string {
 // configuration holds (hasher, token generator, mailer, ...): one value of
 // them is installed in the instance and serves every request.
 var componentTypes = map[string]bool{}
+
+// perCallTypes: unexported struct types every value of which is made by
+// request-time code (see findComponentTypes).
+var perCallTypes = map[string]bool{}
 
 func (c *Ctx) findComponentTypes() {
 	root := c.P.ByPath[RepoPath]
@@ -257,6 +264,44 @@ func (c *Ctx) findComponentTypes() {
 					componentTypes[Short(named.String())] = true
 				}
 			}
+		}
+	}
+	// an unexported helper type whose every value is made by request-time code
+	// (a writer wrapped around a local buffer for the length of one call) is a
+	// per-call object, not a component an integrator configures and shares
+	made := map[string][2]int{} // type -> [request-time sites, other sites]
+	note := func(t types.Type, fn *ssa.Function) {
+		n, ok := derefType(t).(*types.Named)
+		if !ok || n.Obj().Exported() || n.Obj().Pkg() == nil || c.P.ByPath[n.Obj().Pkg().Path()] == nil {
+			return
+		}
+		if _, isStruct := n.Underlying().(*types.Struct); !isStruct {
+			return
+		}
+		k := made[Short(n.String())]
+		if c.isRequestTime(fn) {
+			k[0]++
+		} else {
+			k[1]++
+		}
+		made[Short(n.String())] = k
+	}
+	for _, fn := range c.P.Funcs {
+		for _, b := range fn.Blocks {
+			for _, in := range b.Instrs {
+				switch x := in.(type) {
+				case *ssa.Alloc:
+					note(x.Type(), fn)
+				case *ssa.MakeInterface:
+					note(x.X.Type(), fn)
+				}
+			}
+		}
+	}
+	for t, k := range made {
+		if k[0] > 0 && k[1] == 0 {
+			delete(componentTypes, t)
+			perCallTypes[t] = true
 		}
 	}
 }
@@ -850,6 +895,60 @@ func (c *Ctx) poolReset(fn *ssa.Function, get *ssa.Call) {
 		return
 	}
 	for _, o := range objs {
+		if _, isMap := o.Type().Underlying().(*types.Map); isMap {
+			// a map: emptied (clear, or delete of every key in a range over it) before
+			// anything else looks at it
+			var resets, uses []ssa.Instruction
+			if o.Referrers() != nil {
+				for _, ref := range *o.Referrers() {
+					switch x := ref.(type) {
+					case *ssa.Call:
+						if bi, isB := x.Call.Value.(*ssa.Builtin); isB && (bi.Name() == "clear" || bi.Name() == "delete") {
+							resets = append(resets, x)
+							continue
+						}
+						if strings.HasSuffix(Callee(x), "sync.Pool).Put") {
+							continue
+						}
+						uses = append(uses, x)
+					case *ssa.Defer:
+						if strings.HasSuffix(Callee(x), "sync.Pool).Put") {
+							continue
+						}
+						uses = append(uses, x)
+					case *ssa.Range:
+						// the range that drives a delete loop is part of the reset
+						uses = append(uses, x)
+					case *ssa.MakeInterface:
+						// handed to Put
+					case *ssa.DebugRef:
+					default:
+						uses = append(uses, ref)
+					}
+				}
+			}
+			okReset := false
+			for _, rs := range resets {
+				all := true
+				for _, u := range uses {
+					if _, isRange := u.(*ssa.Range); isRange && BlockReaches(u.Block(), rs.Block()) && !InstrDominates(rs, u) {
+						// the loop this delete sits in
+						if bi := rs.(*ssa.Call).Call.Value.(*ssa.Builtin); bi.Name() == "delete" {
+							continue
+						}
+					}
+					if !InstrDominates(rs, u) {
+						all = false
+					}
+				}
+				if all {
+					okReset = true
+				}
+			}
+			// a delete loop placed first: its range is the first use and every other use comes after the loop
+			r.Check(okReset, "C20.pool", name, "reset of "+Short(o.Type().String())+" from sync.Pool", posf(c, get), "the map is emptied before anything reads it", "the map taken from the pool was used by an earlier request and is not emptied before it is used: entries the earlier request left (on any exit that skipped its clean-up) are visible to this one")
+			continue
+		}
 		st, ok := derefType(o.Type()).Underlying().(*types.Struct)
 		if !ok {
 			r.Unknown("C20.pool", name, "sync.Pool.Get "+o.Type().String(), posf(c, get), "object recycled between requests through a sync.Pool; only struct objects whose fields are all reset are understood")
